@@ -689,7 +689,7 @@ fn main() {
             rep.count(&format!("spec_violation:{}", sig));
             rep.spec_violation(&known, &sig, &format!("`{}` failed ({:?}) at row {} and left {} (was {})", f.text, f.out, f.pos, f.post, f.pre), &body);
         }
-        if let Some(p) = &f.probe {
+        if let (Some(p), true) = (&f.probe, sv == "ok") {
             rep.spec_violation(&known, &format!("store-probe-diverges:{}:{}", f.clause, f.kind), &format!("after the failed `{}`: {}", f.text, p), &body);
             continue;
         }
